@@ -4,6 +4,8 @@ import PhyVerif.Model.C18c
 import PhyVerif.Model.C18p
 import PhyVerif.Spec.C18
 import PhyVerif.Spec.C18c
+import PhyVerif.Model.C18j
+import PhyVerif.Spec.C18j
 namespace PhyVerif.Driver
 open Lean PhyVerif.C18
 
@@ -246,6 +248,27 @@ def runC18 (op : String) (j : Json) : R Json := do
     -- running under another locale): one answer per dictionary
     let ds ← fld j "dicts" >>= asArr
     pure (Json.mkObj [("results", Json.arr (← ds.mapM jsonRoundTrip).toArray)])
+  | "jsonstr" =>
+    -- the text layer of strings (Model/C18j): for each str (code points) the literal `save_json` writes, the
+    -- scanner on it (followed by the end of a one-entry file), the same through an ASCII-encoded file, the codecs;
+    -- `impl_bodies`: the text the REAL code wrote after the opening quote of the value, through the model scanner
+    let ss ← fld j "strings" >>= asList (asList asNat)
+    let bodies ← match j.getObjVal? "impl_bodies" with
+      | .ok v => asList (asOpt (asList asNat)) v
+      | .error _ => pure (ss.map fun _ => none)
+    let jScan (r : Option (PyStr × List Nat)) : Json := jOpt (fun p => Json.arr #[jNats p.1, jNats p.2]) r
+    pure (Json.mkObj [("results", jList (fun (sb : PyStr × Option (List Nat)) =>
+      let s := sb.1
+      Json.mkObj [("literal", jNats (strLiteral s)),
+                  ("scanned", jScan (scan (escapeStr s ++ [34, 10, 125]))),
+                  ("via_ascii_file", jScan (strViaAsciiFile s)),
+                  ("ascii", jOpt jNats (strictAscii (strLiteral s))),
+                  ("utf8_ok", Json.bool (strictUtf8Ok (strLiteral s))),
+                  ("raw_ascii_ok", Json.bool (strictAscii s).isSome),
+                  ("raw_utf8_ok", Json.bool (strictUtf8Ok s)),
+                  ("valid", Json.bool (decide (ValidStr s))),
+                  ("nojoin", Json.bool (decide (NoJoin s))),
+                  ("real_scanned", jOpt jScan (sb.2.map scan))]) (ss.zip bodies))])
   | _ => .error s!"C18: unknown op {op}"
 
 end PhyVerif.Driver
